@@ -4,6 +4,8 @@ from . import c07
 class C08(c07.NetCheck):
     prop = "C08"
     own = "progress"
+    # lost wake-ups need rarer scheduler states than channel-order violations: more networks per quick run
+    quick_runs = 16000
     technique = "deterministic simulation: generated fiber/channel networks on the real scheduler, outcome compared with the outcome set of an exhaustively explored ideal process-network model, bounded liveness in VM steps"
     rule = ("same networks as C07; the oracle is the set of outcomes {complete, deadlock} the ideal model (bounded FIFOs, blocking "
             "operations, any schedule; exhaustive memoised search of the model, cap 200000 states) allows, plus: never a hang or spin "
